@@ -102,6 +102,12 @@ FpExprs ==
         S1("Div", "flt", FromInt(3), B2("Sum", B2("Prod", Xn(1), Dn(1)), Xn(2))), S1("Div", "dbl", FromInt(3), Dn(1)),
         S1("ScalL", "flt", FromInt(3), Xn(1)), S1("ScalR", "dbl", R(1, 2), Dn(1)), S1("SubSR", "flt", R(1, 2), Xn(1)),
         S1("AddSL", "dbl", FromInt(3), Dn(1))}
+\* nested scalings by float scalars whose product is not representable in float (25 bits);
+\* operator application only, low orders (TLC's integers)
+NestExprs == {S1("ScalL", "flt", R(4097, 4096), S1("ScalL", "flt", R(4097, 4096), Dn(1))),
+              S1("ScalR", "flt", R(4097, 4096), S1("ScalL", "flt", R(4097, 4096), Xn(1))),
+              S1("Div", "flt", R(4097, 4096), S1("ScalR", "flt", R(4095, 4096), Dn(1))),
+              S1("ScalL", "dbl", R(4097, 4096), S1("ScalL", "flt", R(4097, 4096), Xn(1)))}
 FpBFOps == {Id, Dn(1), Xn(1), B2("Sum", S1("ScalL", "T", R(-1, 2), Dn(2)), SplLeaf)}
 
 RECURSIVE HasSpl(_)
@@ -120,6 +126,10 @@ FpSpl(S, o, v) == SplOn(S, o, IF SupNInt(S) = 0 THEN <<>> ELSE FrC(SupNInt(S), o
 \* h = 1/16 do not fit TLC's integers).
 G8 == <<R(7, 1), R(57, 8), R(29, 4), R(15, 2), R(8, 1)>>
 FarExprs == {Xn(1), Xn(2), Xn(3), Dn(1), B2("Prod", Xn(1), Dn(1)), B2("Sum", Dn(2), Xn(1)), S1("SubSR", "T", FromInt(3), Xn(1))}
+NestCases == {[op |-> "FpApply", ast |-> e, a |-> a, fs |-> <<>>,
+               E |-> [app |-> ApplyI(e, a, <<>>)], S |-> [app |-> ApplyAbs(e, a, <<>>)]] :
+                e \in NestExprs, a \in {SplOn(S, o, IF SupNInt(S) = 0 THEN <<>> ELSE [r \in 1..SupNInt(S) |-> [k \in 1..(o + 1) |-> FromInt(2 * r + k - 3)]]) :
+                                          S \in {SupWhole(E4), Sup(E4, 1, 3)}, o \in 1..2}}
 FarCases == {[op |-> "FpApply", ast |-> e, a |-> a, fs |-> <<>>,
               E |-> [app |-> ApplyI(e, a, <<>>)], S |-> [app |-> ApplyAbs(e, a, <<>>)]] :
                e \in FarExprs, a \in {FpSpl(S, o, 0) : S \in {SupWhole(G8), Sup(G8, 1, 4)}, o \in 0..6}}
@@ -190,7 +200,7 @@ Init == \/ st = [ph |-> 0, kind |-> "x"]
         \/ \E k \in FpKnots : st = [ph |-> 0, kind |-> "k", k |-> k]
         \/ \E g \in FpGrids : \E a \in SplsOn(g) : st = [ph |-> 0, kind |-> "a", a |-> a]
 Next == /\ st.ph = 0
-        /\ \E c \in (IF st.kind = "k" THEN GenCases(st.k) ELSE IF st.kind = "x" THEN GridSpecialCases ELSE IF st.kind = "far" THEN FarCases ELSE SplCases(st.a) \cup IntForeignCases(st.a)) :
+        /\ \E c \in (IF st.kind = "k" THEN GenCases(st.k) ELSE IF st.kind = "x" THEN GridSpecialCases ELSE IF st.kind = "far" THEN FarCases \cup NestCases ELSE SplCases(st.a) \cup IntForeignCases(st.a)) :
               st' = [ph |-> 1, c |-> c]
 Spec == Init /\ [][Next]_st
 Emit == (st'.ph = 1) => CSVWrite("%1$s", <<ToJson(st'.c)>>, OutFile)
